@@ -58,7 +58,7 @@ P = {
          "Real non-x86 hardware (arm64 assembly) and a CPU without AVX2 (the linknamed runtime IndexString still sees AVX2) are out of reach."),
  "C15": ("proof", "4.C15", "Coq proof (all Spec theorems are over utf8.DecodeRune segmentation, no well-formedness hypothesis) + ill-formed corpus", "Every Spec characterisation holds for arbitrary bytes; the decoder model is validated against unicode/utf8; all 23 functions run on a dense ill-formed corpus and exhaustive small alphabets."),
  "C16": ("proof", "4.C16", "Coq proof (key invariance under re-casing) + relation evaluated on the implementation", "All results are functions of the folded key; offsets are the same code-point index. The relation is also evaluated directly on both packages with width-changing orbit members."),
- "C17": ("proof", "4.C17", "Coq proof of each relation for Spec + relations evaluated on the implementation", "Every listed relation proved for Spec on all byte strings except IndexRune=Index(string(r)) and IndexByte=Index(string(c)), which are evaluated on the implementation only."),
+ "C17": ("proof", "4.C17", "Coq proof of each relation for Spec + relations evaluated on the implementation", "Every listed relation is proved for Spec on all byte strings, including IndexRune(s,r) = Index(s,string(r)) = IndexAny(s,string(r)) for valid r and IndexByte(s,c) = Index(s,string(c)) for c < 0x80; through the refinements of Instances.v they hold for the structure-faithful models of both packages; each relation is also evaluated directly on the implementation."),
  "C18": ("other", "4.C18", "Coq proof over the regenerated effect summary (no store to non-local storage) and the assembly store summary + abstract interleaving theorem + -race run and argument snapshots",
          "PARTIAL by nature: schedules are quantified over an abstract shared-memory machine, not the Go memory model. Proved: no trace of an exported function contains a store outside function-local storage or a call outside the read-only allow-list; "
          "the assembly stores only through the result-slot pointer; read-only threads cannot race. Dynamic tie: argument snapshots (incl. spare capacity) on every correspondence call, repeated-call determinism, 64 goroutines x all functions over shared backing arrays under the race detector."),
